@@ -45,10 +45,18 @@ type ExtractCase struct {
 	// destination name: NameLen = 0 is "blob", otherwise a name of that many bytes (1..255; from 244 on
 	// "."+name+".<10 digits>" no longer fits NAME_MAX); DirDepth nests the output directory that many
 	// 100-byte directories deep (the path stays far below PATH_MAX: the name limit is the one met)
-	NameLen  int    `json:"name_len,omitempty"`
-	DirDepth int    `json:"dir_depth,omitempty"`
-	Digest   string `json:"digest,omitempty"` // "" = sha512-256 | sha256: index, store objects and `desync --digest sha256`
-	Bad      string `json:"bad,omitempty"`    // self-test only: "unlink-dest" = the harness removes the destination after the death
+	NameLen  int        `json:"name_len,omitempty"`
+	DirDepth int        `json:"dir_depth,omitempty"`
+	Seeds    []SeedSpec `json:"seeds,omitempty"`
+	Digest   string     `json:"digest,omitempty"` // "" = sha512-256 | sha256: index, store objects and `desync --digest sha256`
+	Bad      string     `json:"bad,omitempty"`    // self-test only: "unlink-dest" = the harness removes the destination after the death
+}
+
+// SeedSpec is one seed handed to the extract: a blob with its index, made of chunks of the case
+// (Layout[i] >= 0: Chunks[Layout[i]]) and of chunks only the seed has (Layout[i] < 0).
+type SeedSpec struct {
+	Layout []int `json:"layout"`
+	Dir    bool  `json:"dir,omitempty"` // given with --seed-dir <directory> instead of --seed <index>:<blob>
 }
 
 func (c ExtractCase) straced() bool { return c.Death == "strace-kill" || c.Death == "strace-err" }
@@ -371,6 +379,9 @@ func (c ExtractCase) normalise() ExtractCase {
 	if c.Digest != "sha256" {
 		c.Digest = ""
 	}
+	if len(c.Seeds) > 3 {
+		c.Seeds = c.Seeds[:3]
+	}
 	c.NameLen = max(0, min(c.NameLen, 255))
 	c.DirDepth = max(0, min(c.DirDepth, 25))
 	switch c.Death {
@@ -438,6 +449,46 @@ func runExtract(c ExtractCase) (o hx.Outcome) {
 	defer os.RemoveAll(work)
 	index := filepath.Join(work, "index.caibx")
 	os.WriteFile(index, ref.EncodeIndex(idxf), 0o644)
+	// seeds: older versions of the blob / unrelated files, each with a valid index of its own
+	var seedArgs []string
+	seedIDs := map[string]bool{}
+	nSeedDirs := 0
+	for si, sp := range c.Seeds {
+		sf := ref.IndexFile{Flags: idxf.Flags, Min: 1 << 62}
+		var sblob []byte
+		for _, l := range sp.Layout {
+			var b []byte
+			if l >= 0 {
+				b = plain[l%len(plain)]
+			} else {
+				b = gen.RandBytes(1+int(uint64(-l)*7919%maxL), uint64(-l)+0x5eed)
+			}
+			sblob = append(sblob, b...)
+			sf.Items = append(sf.Items, ref.IndexItem{End: uint64(len(sblob)), ID: ref.ID(b, sha)})
+			sf.Min, sf.Max = min(sf.Min, uint64(len(b))), max(sf.Max, uint64(len(b)))
+			seedIDs[xid(b)] = true
+		}
+		if len(sf.Items) == 0 {
+			continue
+		}
+		sf.Avg = (sf.Min + sf.Max + 1) / 2
+		sd := filepath.Join(work, "seeds", strconv.Itoa(si))
+		os.MkdirAll(sd, 0o755)
+		os.WriteFile(filepath.Join(sd, "v.caibx"), ref.EncodeIndex(sf), 0o644)
+		os.WriteFile(filepath.Join(sd, "v"), sblob, 0o644)
+		if sp.Dir {
+			seedArgs = append(seedArgs, "--seed-dir", sd)
+			nSeedDirs++
+		} else {
+			seedArgs = append(seedArgs, "--seed", filepath.Join(sd, "v.caibx")+":"+filepath.Join(sd, "v"))
+		}
+	}
+	needed := 0 // distinct chunks no seed can supply: those the store is certainly asked for
+	for id := range distinct {
+		if !seedIDs[id] {
+			needed++
+		}
+	}
 	outDir := filepath.Join(work, "out") // the directory of the destination
 	for i := 0; i < c.DirDepth; i++ {
 		outDir = filepath.Join(outDir, strings.Repeat(string(rune('a'+i%26)), 100))
@@ -492,6 +543,7 @@ func runExtract(c ExtractCase) (o hx.Outcome) {
 	if c.Inplace {
 		args = append(args, "-k")
 	}
+	args = append(args, seedArgs...)
 	args = append(args, "-n", strconv.Itoa(c.N), "-s", "http://"+srvAddr+"/"+prefix+"/", index, out)
 	var res procResult
 	var killed bool
@@ -512,6 +564,14 @@ func runExtract(c ExtractCase) (o hx.Outcome) {
 	served, nreq := st.served, len(st.reqs)
 	firstReqs := append([]string(nil), st.reqs...)
 	allServed := len(st.servedIDs) >= len(distinct) // every chunk the assembly has to fetch went out completely
+	if len(seedArgs) > 0 {                          // what a seed holds may or may not be fetched: the ones no seed has must all be out
+		allServed = true
+		for id := range distinct {
+			if !seedIDs[id] && !st.servedIDs[id] {
+				allServed = false
+			}
+		}
+	}
 	st.mu.Unlock()
 	died := killed || res.Exit != 0
 	if c.Bad == "unlink-dest" && died {
@@ -548,6 +608,31 @@ func runExtract(c ExtractCase) (o hx.Outcome) {
 			}
 		}
 	}
+	if len(seedArgs) > 0 {
+		desc := o.Desc.(map[string]any)
+		desc["seeds"], desc["seed_dirs"], desc["distinct_not_in_seeds"] = len(seedArgs)/2, nSeedDirs, needed
+		o.Key += fmt.Sprintf("/seeds%d/%d/%d", len(seedArgs)/2, nSeedDirs, needed)
+		o.Class("extract:seed")
+		if nSeedDirs > 0 {
+			o.Class("extract:seed-dir")
+		}
+		if needed == len(distinct) {
+			o.Class("extract:seed:unrelated-only")
+		}
+		if !died && nreq < len(distinct) {
+			o.Class("extract:seed:used") // the run completed with fewer requests than distinct chunks: a seed supplied some
+		}
+		if died {
+			switch {
+			case c.Inplace:
+				o.Class("extract:seed:inplace-rerun")
+			case c.Prior == "absent":
+				o.Class("extract:seed:dest-absent:no-k")
+			default:
+				o.Class("extract:seed:dest-exists:no-k")
+			}
+		}
+	}
 	if sha {
 		o.Class("extract:digest=sha256")
 		o.Desc.(map[string]any)["digest"] = "sha256"
@@ -567,7 +652,7 @@ func runExtract(c ExtractCase) (o hx.Outcome) {
 			o.Class("extract:stopped-by-signal:partial-file-kept")
 		}
 	}
-	midway := died && served >= 1 && served < len(distinct)
+	midway := died && served >= 1 && !allServed
 	if midway {
 		o.Class("extract:died-midway")
 		if c.Inplace {
@@ -631,6 +716,14 @@ func runExtract(c ExtractCase) (o hx.Outcome) {
 		o.Nontrivial = died && inOut
 	}
 
+	if xt != nil && !c.Inplace {
+		// whatever happened to this run: a call that made the destination itself appear, shrink or vanish
+		// before the replacement is a crash point after which the path is not in its previous state
+		if t := xt.touched(out, before.Exists); t != nil {
+			o.Fail("C08:extract:dest-touched", "extract without -k (%s %s #%d, prior %s): the log shows %s returning %s on the destination itself before any rename onto it; a death right behind that call leaves the path changed",
+				c.Death, c.Syscall, c.When, c.Prior, t.short(outDir), strings.Fields(t.Ret + " ?")[0])
+		}
+	}
 	if !died {
 		o.Class("extract:completed")
 		if !bytes.Equal(after.Data, blob) || !after.Exists {
@@ -720,7 +813,8 @@ func runExtract(c ExtractCase) (o hx.Outcome) {
 	}
 	prefix2, st2 := newState(objs, 0, "kill")
 	defer dropState(prefix2)
-	args2 := append(append([]string(nil), global...), "extract", "-k", "-n", strconv.Itoa(c.N), "-s", "http://"+srvAddr+"/"+prefix2+"/", index, out)
+	args2 := append(append([]string(nil), global...), "extract", "-k")
+	args2 = append(append(args2, seedArgs...), "-n", strconv.Itoa(c.N), "-s", "http://"+srvAddr+"/"+prefix2+"/", index, out)
 	res2, _ := runDesync(work, args2, st2, false, 0)
 	st2.releaseAll()
 	final := statFile(out)
